@@ -190,7 +190,11 @@ UNKNOWN_FILES = [("GRID", "coordinates", ["x", "y", "z", "r"]),
                  ("ML_BSSN", "ML_log_confac", ["phi"]),
                  ("TMUNUBASE", "stress_energy_scalar", ["eTtt"]),
                  ("GRHYDRO", "scon", ["scon[0]", "scon[1]", "scon[2]"]),
-                 ("MAXWELL", "fields", ["E", "Ex", "Ey"])]
+                 ("MAXWELL", "fields", ["E", "Ex", "Ey"]),
+                 # different thorns may use the same group name
+                 ("SCALARFIELD", "evolved", ["sfphi", "sfKphi"]),
+                 ("PROCA", "evolved", ["Aprx", "Apry", "Aprz"]),
+                 ("PROCA", "fields", ["Xphi"])]
 
 
 @st.composite
@@ -722,6 +726,10 @@ F_VEL = dict(thorn="HYDROBASE", name="vel", group=True,
              vars=["vel[0]", "vel[1]", "vel[2]"], xyz="suffix")
 F_CURV = dict(thorn="ML_BSSN", name="ML_curv", group=True,
               vars=["At11", "At12", "At22"], xyz="")
+F_SF = dict(thorn="SCALARFIELD", name="evolved", group=True,
+            vars=["sfphi", "sfKphi"], xyz="")
+F_PROCA = dict(thorn="PROCA", name="evolved", group=True,
+               vars=["Aprx", "Apry", "Aprz"], xyz="")
 
 
 def generic_history(sim, loc):
@@ -733,7 +741,8 @@ def generic_history(sim, loc):
         dict(files=[F_ALP, F_SHIFT, F_VEL], nproc=0, ncomp=1, m0=False,
              levels=_lev([0, 384, 128], [0, 384, 64]),
              checkpoints=[0, 354], chk_nproc=0),
-        dict(files=[F_ALP, F_SHIFT, F_CURV], nproc=3, ncomp=1, m0=False,
+        dict(files=[F_ALP, F_SHIFT, F_CURV, F_SF, F_PROCA], nproc=3,
+             ncomp=1, m0=False,
              levels=_lev([384, 1024, 128], [384, 1024, 64], [512, 1024, 32]),
              checkpoints=[494, 990], chk_nproc=2),
         dict(files=[F_RHO, F_SHIFT], nproc=0, ncomp=12, m0=True,
